@@ -97,6 +97,18 @@ def run(ctx: Ctx) -> int:
                 ("NEGHALF", f"ds.SelectMany(lambda e: e.{C}('A')).Select(lambda j: (DeltaR(j.eta(), j.phi(), NEGHALF, NEGHALF), DeltaR(NEGHALF, NEGONE, j.eta(), j.phi()), abs(NEGHALF) + sqrt(abs(NEGONE))))"),
                 ("NEGONE", f"ds.Select(lambda e: (e.{C}('A').Select(lambda j: j.pt() - NEGONE), e.{C}('A').Where(lambda j: j.pt() > NEGHALF).Count(), NEGONE))")]):
             cases.append(diff.Case(backend, q, evs0, diff.members_used(s, q), tag={"pos": "negative_constant_node", "kind": "mixed", "value": txt + f"#{k}"}))
+        # ---- numeric constants as the arms of a conditional (both arms literals: whole-valued floats, large floats, mixed kinds)
+        for k, (a, b) in enumerate([("1.0", "0.0"), ("1e10", "0.0"), ("2.0", "3"), ("1", "0"), ("0.5", "2"), ("3000000000.0", "1.0"), ("-1.0", "1.0"), ("1e-07", "0.0"), ("True", "False")]):
+            q = f"ds.SelectMany(lambda e: e.{C}('A')).Select(lambda j: (({a} if j.pt() > 30.0 else {b}), ({b} if j.pt() > 30.0 else {a}) + 0, j.pt()))"
+            c = diff.Case(backend, q, evs0, diff.members_used(s, q), tag={"pos": "conditional_arms", "kind": "mixed", "value": f"{a}|{b}"})
+            cases.append(c)
+        # ---- strings spelt as expressions of literals: f-strings (conversions, format specifications, the = form) and + of literals.
+        # Either the translator refuses them or the string it renders is the one Python denotes.
+        for k, expr in enumerate(['f"A{1}"', 'f"AntiKt{4}{\'EMTopo\'!r}Jets"', 'f"{\'x\'!s:>3}y"', 'f"v{2.5:.1f}"', 'f"{\'A\'!a}"', 'f"{3=}"', '"A" + "B"', 'f"{{braces}}{1}"', 'f"plain"']):
+            sv = eval(expr)
+            evs = [dict(banks=[dict(b, bank=sv) if (b["coll"] == C and b["bank"] == "A") else b for b in ev["banks"]]) for ev in evs0]
+            q = f"ds.Select(lambda e: e.{C}({expr}).Count())"
+            cases.append(diff.Case(backend, q, evs, diff.members_used(s, q), tag={"pos": "bank_name", "kind": "str", "value": sv, "spelt": expr}))
         # ---- strings
         strs = STRINGS if not ctx.quick else STRINGS
         for sv in strs:
